@@ -733,7 +733,18 @@ func (f *c09ScriptFwd) ForwardDNS(ctx context.Context, data []byte) (*dnsmessage
 	if ch != nil {
 		ch <- call
 	}
-	a := <-call.release
+	var a c09Att
+	select {
+	case a = <-call.release:
+	case <-ctx.Done():
+		// like a real transport, the exchange ends when its context is CANCELLED (the resolution's owner went away,
+		// the controller is closing).  A mere deadline is left to the script (`never answers`): the harness's own
+		// virtual-time sleeps must not expire the exchanges of other flights.
+		if !call.dead && errors.Is(ctx.Err(), context.Canceled) {
+			return nil, ctx.Err()
+		}
+		a = <-call.release
+	}
 	if call.dead {
 		// entered with a context that is already over (e.g. the TCP fallback after the flight's 5 s ran out on the
 		// UDP leg): a transport fails such an exchange; the harness records the attempt as `fail`
@@ -807,6 +818,9 @@ type c09Client struct {
 	nq    int    // number of questions in the query (1; 0 and 2 are refused with FORMERR)
 	dst   int    // realDst index (scope of as-is answers)
 	w     *c09Writer
+	ctx   context.Context // the client's own request context
+	leave context.CancelFunc
+	gone  bool
 	done  chan error
 	fin   bool
 	rep   bool
@@ -1050,6 +1064,9 @@ func (w *c09CtlWorld) poll() {
 }
 
 func (w *c09CtlWorld) start(c *c09Client) {
+	if c.ctx == nil {
+		c.ctx, c.leave = context.WithCancel(context.Background())
+	}
 	q := new(dnsmessage.Msg)
 	q.SetQuestion(c09Name(c.n, c.sp, c.route), uint16(c.qtype))
 	q.Question[0].Qclass = uint16(c.cls)
@@ -1069,7 +1086,7 @@ func (w *c09CtlWorld) start(c *c09Client) {
 					err = fmt.Errorf("crash:%v", r)
 				}
 			}()
-			err = w.ctrl.HandleWithResponseWriter_(context.Background(), q, req, c.w)
+			err = w.ctrl.HandleWithResponseWriter_(c.ctx, q, req, c.w)
 		}()
 		c.done <- err
 	}()
@@ -1465,6 +1482,68 @@ func c09RunCtlScenario(r *VRand, st *VStream, stat *VStats, routing, routingRR *
 			stat.Inc("ctl.op.refresh.evicted=" + ev)
 			st.Emit(fmt.Sprintf("C refresh %d %s %s %s %s", rf.client, c.scheme(), rrTok, ev, c09AttToks(&atts)),
 				fmt.Sprintf("xch=%d pc=none out=- calls=%d cache=%s", issued, len(flights), w.cacheStr()))
+		case len(running) > 0 && r.Chance(0.14):
+			// a client goes away (its own request context is cancelled) while its singleflight group is in flight: the
+			// leader of a running resolution, or a follower blocked in sf.Do.  The shared resolution must go on and
+			// everybody else must be served its result.
+			var leaders, followers []int
+			for i, c := range w.clients[:arrived] {
+				if c.fin || c.gone || c.nq != 1 {
+					continue
+				}
+				isLeader := false
+				for _, f := range running {
+					if f.leader == c {
+						isLeader = true
+					}
+				}
+				if isLeader {
+					leaders = append(leaders, i)
+				} else {
+					followers = append(followers, i)
+				}
+			}
+			pick := leaders
+			kind := "leader"
+			if len(followers) > 0 && (len(leaders) == 0 || r.Chance(0.4)) {
+				pick, kind = followers, "follower"
+			}
+			if len(pick) == 0 {
+				continue
+			}
+			gi := pick[r.Intn(len(pick))]
+			gc := w.clients[gi]
+			pc := "waiting"
+			for fi, f := range flights {
+				if f.leader == gc && !f.done {
+					pc = fmt.Sprintf("leading:%d", fi)
+				}
+			}
+			nWaiting := 0
+			for _, c := range w.clients[:arrived] {
+				if !c.fin && c != gc {
+					nWaiting++
+				}
+			}
+			gc.gone = true
+			gc.leave()
+			w.settle(r)
+			w.poll()
+			var others []string
+			for i, c := range w.clients[:arrived] {
+				if c.fin && !c.rep && c != gc {
+					others = append(others, fmt.Sprintf("%d:%s", i, strings.SplitN(w.outcome(c), ",", 2)[0]))
+				}
+			}
+			of := "-"
+			if len(others) > 0 {
+				of = strings.Join(others, "+")
+			}
+			stat.Inc("ctl.op.gone." + kind)
+			if nWaiting > 0 {
+				stat.Inc("ctl.op.gone." + kind + ".with-live-waiters")
+			}
+			emit(fmt.Sprintf("C gone %d", gi), "others-finished="+of+" ", gc, pc)
 		case len(running) > 0 && r.Chance(0.15):
 			// the forwarder cache is disturbed while upstream exchanges are blocked inside forwardWithDialArg:
 			// failure-path retire, idle eviction, reload reset.  No event of the Ctl model; the fake forwarders
